@@ -1,9 +1,12 @@
 import numpy as np
+import fractions
 from dataclasses import dataclass, field, fields
 from typing import Union
 from math import isclose
 
 from .settings import *
+
+FRACTION_MAX_DENOMINATOR = 1000   # largest denominator used when a float is turned into a ratio
 
 class Fraction:
     __slots__ = ("num","den")
@@ -72,6 +75,10 @@ class Fraction:
             return Fraction(self.num*other.num, self.den*other.den)
         elif isinstance(other, tuple):
             return Fraction(self.num*other[0], self.den*other[1])
+        elif isinstance(other, (float, np.floating)):
+            # a float factor is replaced by the closest ratio of small integers (0.5 -> 1:2)
+            ratio = fractions.Fraction(float(other)).limit_denominator(FRACTION_MAX_DENOMINATOR)
+            return Fraction(self.num*ratio.numerator, self.den*ratio.denominator)
         else:
             return Fraction(self.num*other, self.den)
 
